@@ -27,10 +27,11 @@ class LoopStalled(BaseException):
 
 
 class _Watchdog:
-    """A single loop handle never legitimately takes seconds.  If the handle counter does not move between two ticks
-    of a wall-clock interval timer, the code running inside that handle is spinning: it is interrupted (so that the run
-    can end) and the run is marked as stalled - a violation, not a harness error."""
-    PERIOD = 8.0
+    """A single loop handle never legitimately takes seconds of CPU.  If the handle counter does not move between two
+    ticks of an interval timer that counts this process's own CPU time (so a busy machine cannot trip it), the code
+    running inside that handle is spinning: it is interrupted (so that the run can end) and the run is marked as
+    stalled - a violation, not a harness error."""
+    PERIOD = 5.0
 
     def __init__(self, sim):
         self.sim = sim
@@ -42,14 +43,14 @@ class _Watchdog:
         import threading
         if threading.current_thread() is not threading.main_thread():
             return
-        self.old = signal.signal(signal.SIGALRM, self._tick)
-        signal.setitimer(signal.ITIMER_REAL, self.PERIOD, self.PERIOD)
+        self.old = signal.signal(signal.SIGVTALRM, self._tick)
+        signal.setitimer(signal.ITIMER_VIRTUAL, self.PERIOD, self.PERIOD)
 
     def stop(self):
         import signal
         if self.old is not None:
-            signal.setitimer(signal.ITIMER_REAL, 0)
-            signal.signal(signal.SIGALRM, self.old)
+            signal.setitimer(signal.ITIMER_VIRTUAL, 0)
+            signal.signal(signal.SIGVTALRM, self.old)
             self.old = None
 
     def _tick(self, signum, frame):
@@ -58,7 +59,7 @@ class _Watchdog:
         if now == self.last and getattr(sim.loop, "in_handle", False):
             sim.stalled = True
             self.last = None
-            raise LoopStalled("no progress within one loop handle for %.0f s" % self.PERIOD)
+            raise LoopStalled("no progress within one loop handle for %.0f s of CPU time" % self.PERIOD)
         self.last = now
 
 
@@ -673,7 +674,7 @@ class CtlSim:
     def end_of_steps(self):
         """Hook: property-specific final checks are added by the engine through run['final']."""
         if getattr(self, "stalled", False):
-            msg = "the event loop was kept busy inside ONE handle for seconds of wall time (interrupted by the watchdog): " \
+            msg = "the event loop was kept busy inside ONE handle for seconds of CPU time (interrupted by the watchdog): " \
                   "every session, the pool's tasks and the ability to stop the server were frozen meanwhile"
             self.violate("C19", "loop_stalled", msg)
             self.violate("C18", "loop_stalled", msg)
